@@ -6,7 +6,7 @@ LEVEL = 'model_checking'
 PID = 'C01'
 FAMILY = 'seq'
 PROPS = ['P_C01']
-BASE = [{'role': 'acc', 'bs': 42, 'chunk': 0, 'maxIn': 5, 'maxOut': 3}, {'role': 'acc', 'bs': 42, 'chunk': 1, 'maxIn': 5, 'maxOut': 4}]
+BASE = [{'role': 'acc', 'bs': 42, 'chunk': 0, 'maxIn': 6, 'maxOut': 3}, {'role': 'acc', 'bs': 42, 'chunk': 1, 'maxIn': 5, 'maxOut': 4}]
 ALT = [{'role': 'init', 'bs': 44, 'chunk': 0}, {'role': 'init', 'bs': 40, 'chunk': 2}, {'role': 'acc', 'bs': 41, 'chunk': 1}, {'role': 'init', 'bs': 50, 'chunk': 0}, {'role': 'acc', 'bs': 44, 'chunk': 3}, {'role': 'init', 'bs': 42, 'chunk': 1}]
 
 
